@@ -223,8 +223,13 @@ def real_pool_case():
         except Exception as exc:  # noqa: BLE001
             return False, f"write_multiprocessing with the real pool raised {type(exc).__name__}: {str(exc)[:100]}"
         ok = res == [("result-of-writer", 0, 4), ("result-of-writer", 1, 0), ("result-of-writer", 2, 2)]
-        tr = fillerlab.read_split(d, "train")
-        return ok and tr == [100, 101, 102, 140] and not metaoracle.audit(d), f"results {res}, train {tr}"
+        try:
+            tr = fillerlab.read_split(d, "train")
+            te = fillerlab.read_split(d, "test")
+            audit = metaoracle.audit(d)
+        except Exception as exc:  # noqa: BLE001
+            return False, f"results {res}; reading the dataset afterwards raised {type(exc).__name__}: {str(exc)[:100]}"
+        return ok and tr == [100, 101, 102, 140] and te == [110, 150] and not audit, f"results {res}, train {tr}, test {te}, audit {audit[:1]}"
 
 
 def run(tier, seed):
